@@ -306,6 +306,48 @@ class TimedListT(Ty):
         return [self]
 
 
+class MapT(Ty):
+    """A reamber chart object (any Map subclass): the REAL default instance lifted into the model, with the
+    lists named in `sizes` replaced by symbolic lists of that many rows (labels symbolic = any history).
+    `fields`: concrete values for dataclass fields (metadata)."""
+
+    def __init__(self, cls, sizes, labels="symbolic", fields=None, overrides=None):
+        self._cls, self.sizes, self.labels, self.fields, self.overrides = cls, dict(sizes), labels, dict(fields or {}), overrides or {}
+
+    @property
+    def cls(self):
+        if isinstance(self._cls, str):
+            self._cls = resolve(self._cls)
+        return self._cls
+
+    def _real(self):
+        m = self.cls()
+        for k, v in self.fields.items():
+            setattr(m, k, v)
+        return m
+
+    def _list_ty(self, real, name):
+        return TimedListT(type(real.objs[name]), self.sizes[name], self.labels, self.overrides.get(name))
+
+    def make(self, name, ctx):
+        from .frames import lift
+
+        real = self._real()
+        m = lift(real)
+        for ln in self.sizes:
+            m.fields["objs"][ln] = self._list_ty(real, ln).make(f"{name}.{ln}", ctx)
+        return m
+
+    def concretize(self, name, model):
+        real = self._real()
+        for ln in self.sizes:
+            real.objs[ln] = self._list_ty(real, ln).concretize(f"{name}.{ln}", model)
+        return real
+
+    def shapes(self):
+        return [self]
+
+
 # --------------------------------------------------------------------------- target resolution
 
 
@@ -358,6 +400,7 @@ class Contract:
         self.max_paths = int(d.get("max_paths", 1500))
         self.pure = bool(d.get("pure", False))
         self.explore_s = d.get("explore_s")
+        self.wants_old = any("old" in inspect.signature(f).parameters for f in self.ensures.values())
         self.hints = {k[len("hint_"):]: _fn(v) for k, v in d.items() if k.startswith("hint_")}
         self.requires_more = [_fn(v) for k, v in d.items() if k.startswith("requires_")]
         self.args_thorough = d.get("args_thorough")
@@ -423,6 +466,10 @@ class Lemma:
         self.max_paths = int(d.get("max_paths", 1500))
         self.requires_more = [_fn(v) for k, v in d.items() if k.startswith("requires_")]
         self.args_thorough = d.get("args_thorough")
+        self.wants_old = any("old" in inspect.signature(f).parameters for f in self.ensures.values())
+        self.hints = {k[len("hint_"):]: _fn(v) for k, v in d.items() if k.startswith("hint_")}
+        self.explore_s = d.get("explore_s")
+        self.pure = False
 
     all_requires = Contract.all_requires
     args_for = Contract.args_for
